@@ -169,6 +169,10 @@ func runCollector(r *rand.Rand, n int, outDir string, sum *emit.Summary) (terms 
 		} else {
 			done = col.ListenWithObserver(ch, collector.ObserverFunc(func(rsc *collector.ResourceStatusCollector, e event.Event) {
 				notified++
+				// observations are taken while the history goes on, not only at its end
+				if o := rsc.LatestObservation(); o.LastEventType != e.Type {
+					early++
+				}
 				if rsc.LastEventType != e.Type || (e.Type == event.ResourceUpdateEvent && rsc.ResourceStatuses[e.Resource.Identifier] != e.Resource) {
 					early++
 				}
@@ -204,12 +208,15 @@ func runCollector(r *rand.Rand, n int, outDir string, sum *emit.Summary) (terms 
 			}
 			sum.Count("collector:event=" + etypes[e.kind])
 		}
-		close(ch)
-		wg.Wait()
-		if hang {
-			sum.ImplFailures = append(sum.ImplFailures, "collector did not accept an event within 5s")
+		if hang { // the collector goroutine is stuck: do not wait for it
+			sum.ImplFailures = append(sum.ImplFailures, fmt.Sprintf("collector did not accept an event within 5s (ids=%v, %d events, observer=%v)", ids, len(es), c%2 == 1))
+			if len(sum.ImplFailures) > 3 {
+				break
+			}
 			continue
 		}
+		close(ch)
+		wg.Wait()
 		if c%2 == 1 && (notified != len(es) || early != 0) {
 			sum.ImplFailures = append(sum.ImplFailures, fmt.Sprintf("collector observer: %d events, %d notifications, %d of them before the event was recorded (ids=%v)", len(es), notified, early, ids))
 		}
